@@ -48,6 +48,9 @@ func bi(s string) *big.Int {
 
 // parseDec parses a decimal string with at most 18 fractional digits into a
 // 1e18-scaled integer.
+// MaxExtPeriodDays: the documented bound of the extended-period parameter (100 years, in days).
+const MaxExtPeriodDays = 36500
+
 func parseDec(s string) (*big.Int, bool) {
 	neg := false
 	if strings.HasPrefix(s, "-") {
@@ -748,6 +751,11 @@ func (m *Model) ApplyOp(op *Op) MResult {
 	case OUpdateParams:
 		if !validCoinSet(op.Params.CreationFee) || !validCoinSet(op.Params.BidFee) {
 			return rej("invalid fee coins")
+		}
+		if op.Params.ExtPeriod > MaxExtPeriodDays {
+			// an end time that many days later cannot be represented (the year 9999 is the last one a
+			// timestamp can hold): such a parameter must be refused when it is set, not when it is used
+			return rej("extended period too long")
 		}
 		m.Params = MParams{toMCoins(op.Params.CreationFee), toMCoins(op.Params.BidFee), op.Params.ExtPeriod}
 		return MResult{OK: true}
